@@ -9,7 +9,8 @@ and `FactoryOf` of `gerror/factory.go` into Lean `do` blocks.  This file fixes w
 of that fragment mean; like `GoPrelude.lean` it is part of the trusted base of every theorem
 "translated function = model function".
 
-* A `*GError` is an address (`Nat`); the memory it points into is a `Go.Mem ρ` (`ρ` = the record
+* A `*GError` is an address (`Nat`) - always a valid one: nil pointers of type `*GError` are outside this
+  fragment, as they are outside `Model/GErrorIs.lean`; the memory it points into is a `Go.Mem ρ` (`ρ` = the record
   type translated from `type GError struct`): a total map from addresses to records plus the next
   free address.  `&GError{…}` is `Mem.new`, a field write through a pointer is `Mem.store`.
 * A value of an interface type (`error`, `Error`, `Factory`, `factoryOf`, a type parameter
